@@ -31,6 +31,8 @@ def sym_event(sym, rng=None, k=0):
     if sym == "E0":  # falsy members: empty error object, code 0, empty message
         return [{"k": "err", "id": "$ID"}, {"k": "err", "id": "$ID", "code": 0, "msg": ""},
                 {"k": "err", "id": "$ID", "code": 0}][k % 3]
+    if sym == "Ez":  # an error the server could not attribute to a request: id null (parse error, invalid request, ...)
+        return {"k": "err", "id": None, "code": [-32700, -32600, -32603, -32000][k % 4], "msg": ["Parse error", "Invalid Request", "boom", ""][k % 4]}
     if sym == "Q":
         return {"k": "req", "id": "$ID", "method": ["sampling/createMessage", "roots/list", "ping", "notifications/progress"][k % 4]}
     if sym == "O":
